@@ -79,3 +79,70 @@ fn rac_lhs_frontend() {
     *wd.lock().unwrap() = None;
     println!("RAC-OK lhs_frontend cases={} nontrivial={} bound=<=5-of-10-fragments", cases, nontrivial);
 }
+
+// Prose words at their true offsets (C04) for Literate Haskell: files assembled from segments with declared prose words
+// (text lines with multi-byte characters, bird-track code fenced by blank lines as the format demands, \begin{code}
+// blocks, blank lines in front of and between chunks); the Word tokens are exactly the declared words at their declared character offsets.
+#[test]
+fn rac_lhs_prose_offsets() {
+    let segs: [(&str, &[&str]); 9] = [
+        ("Alpha beta\n", &["Alpha", "beta"]),
+        ("\n", &[]),
+        ("\n> main = print \"strïng 😀\"\n\n", &[]),
+        ("\\begin{code}\nmain :: IO ()\nx = \"wörd\"\n\\end{code}\n", &[]),
+        ("Gamma é😀 delta\n", &["Gamma", "é", "delta"]),
+        ("\n\n", &[]),
+        ("The naïve closing words.\n", &["The", "naïve", "closing", "words"]),
+        ("\n> y = 2\n> z = \"wörd\"\n\n", &[]),
+        ("  indented prose here\n", &["indented", "prose", "here"]),
+    ];
+    let parser = LiterateHaskellParser::new_markdown(MarkdownOptions::default());
+    let mut combos: Vec<Vec<usize>> = vec![vec![]];
+    let mut frontier: Vec<Vec<usize>> = vec![vec![]];
+    for _ in 0..4 {
+        let mut next = vec![];
+        for c in &frontier { for i in 0..segs.len() { let mut d = c.clone(); d.push(i); next.push(d); } }
+        combos.extend(next.iter().cloned());
+        frontier = next;
+    }
+    let mut cases = 0u64;
+    let mut nontrivial = 0u64;
+    for c in &combos {
+        let mut text = String::new();
+        let mut want: Vec<(usize, usize, String)> = vec![];
+        for i in c {
+            let base = text.chars().count();
+            let chars: Vec<char> = segs[*i].0.chars().collect();
+            let mut from = 0usize;
+            for w in segs[*i].1 {
+                let wc: Vec<char> = w.chars().collect();
+                let pos = (from..=chars.len() - wc.len()).find(|&k| chars[k..k + wc.len()] == wc[..]).unwrap();
+                want.push((base + pos, base + pos + wc.len(), w.to_string()));
+                from = pos + wc.len();
+            }
+            text.push_str(segs[*i].0);
+        }
+        cases += 1;
+        let src: Vec<char> = text.chars().collect();
+        let r = std::panic::catch_unwind(std::panic::AssertUnwindSafe(|| {
+            let doc = Document::new_curated(&text, &parser);
+            doc.get_tokens().iter().filter(|t| matches!(t.kind, TokenKind::Word(_)))
+                .map(|t| (t.span.start, t.span.end, src.get(t.span.start..t.span.end).map(|s| s.iter().collect::<String>()).unwrap_or_else(|| "<outside the file>".to_string())))
+                .collect::<Vec<_>>()
+        }));
+        match r {
+            Err(_) => { println!("RAC-CEX lhs_prose_offsets {{\"text\": {:?}, \"why\": \"panicked\"}}", text); panic!("prose-offset contract violated"); }
+            Ok(got) => {
+                if got != want {
+                    let missing: Vec<_> = want.iter().filter(|w| !got.contains(w)).take(3).collect();
+                    let extra: Vec<_> = got.iter().filter(|g| !want.contains(g)).take(3).collect();
+                    println!("RAC-CEX lhs_prose_offsets {{\"text\": {:?}, \"why\": \"the word tokens are not exactly the prose words at their offsets\", \"prose_words_missing\": {:?}, \"unexpected_words\": {:?}}}", text, missing, extra);
+                    panic!("prose-offset contract violated");
+                }
+                if !want.is_empty() { nontrivial += 1; }
+            }
+        }
+    }
+    println!("RAC-SAMPLE lhs_prose_offsets {{\"file\": {:?}, \"prose_words\": [\"Alpha\", \"beta\", \"Gamma\", \"é\", \"delta\"]}}", "Alpha beta\n> y = 2\n\nGamma é😀 delta\n");
+    println!("RAC-OK lhs_prose_offsets cases={} nontrivial={} bound=<=4-of-9-segments-with-known-prose-words", cases, nontrivial);
+}
